@@ -54,7 +54,17 @@ def finish(res, mod, a):
     for e in res["errors"]:
         if e.get("inputs") is not None:
             cands.append(dict(h=e["h"], params=e["params"], clause="exception", inputs=e["inputs"], detail=e["err"]))
-    for v in cands[:12]:
+    # replay at most two candidates per (harness, clause), at most 24 in all
+    per = {}
+    chosen = []
+    for v in cands:
+        k = (v["h"], v["clause"])
+        per[k] = per.get(k, 0) + 1
+        if per[k] <= 2 and len(chosen) < 24:
+            chosen.append(v)
+    if cands:
+        print("candidates by clause: " + "; ".join("%s/%s x%d" % (k[0], k[1], n) for k, n in sorted(per.items())))
+    for v in chosen:
         key = json.dumps([v["h"], v["params"], v["clause"], v["inputs"]], sort_keys=True, default=str)
         if key in seen:
             continue
